@@ -775,6 +775,7 @@ class C14Monitor(Monitor):
                 self.initial_hash[i] = self._tree_hash(pdir)
         self.delete_old = bool(state.config["output"].get("delete_old", False))
         self.delete_all = bool(state.config["output"].get("delete_old_all", False))
+        self.keep = list(state.config["output"].get("keep_traj_fnames", []) or [])
 
     def _files_of(self, traj):
         return sorted(set(pp.config[0] for pp in traj.phasepoints))
@@ -791,6 +792,12 @@ class C14Monitor(Monitor):
                 sim.violate("C14", "live_path_lost_file", f"{why}: path {pn} lacks {f}")
             if os.path.realpath(os.path.dirname(f)) != os.path.realpath(os.path.join(pdir, "accepted")):
                 sim.violate("C14", "file_outside_own_dir", f"{why}: path {pn} references {f}")
+            if pn >= self.E and "_traj" in os.path.basename(f):      # files written by propagate()
+                for ext in self.keep:
+                    extra = os.path.splitext(f)[0] + ext
+                    if not os.path.isfile(extra):
+                        sim.violate("C14", "kept_file_missing", f"{why}: path {pn}: {extra} (keep_traj_fnames "
+                                    f"{self.keep}) was not stored with {os.path.basename(f)}")
 
     def post_treat(self, md):
         from infretis.classes.path import load_path
